@@ -366,6 +366,41 @@ def gen_kmul(rng, tier):
     return "kmul %x %d %s %s %s" % (which, rng.below(2), hx(c), hx(a), hx(b))
 
 
+def gen_qtof_tie(rng):
+    """RBig -> f64 / f32 just above / below / on a rounding tie (54th resp. 25th bit of the quotient set, then zeros): only the
+    remainder of the division (sticky bit) tells the three apart; also quotients that are exactly representable"""
+    pb = rng.choice([53, 53, 24])
+    m = ((rng.bits(pb - 1) | (1 << (pb - 1))) << 1) | rng.choice([1, 1, 1, 0])
+    dd = rng.choice([3, 7, rng.bits(30) | 1, (1 << 70) + 1, 10 ** 20 + 1])
+    j = rng.choice([0, 1, 2, 5, 40, 200])
+    nn = (m * dd << j) + rng.choice([1, -1, 1, -1, 0, dd // 2, 2])
+    if rng.chance(1, 2):
+        dd <<= rng.choice([1, 30, 300, 1000])
+    if rng.chance(1, 2):
+        nn = -nn
+    return "qtof64 %s %s" % (hx(nn), hx(dd))
+
+
+def gen_ftof(rng):
+    """FBig -> f64 / f32, exponents within the exact / division routes of the base conversion (|e| <= 38), all modes,
+    significands of 1..60 digits incl. exactly representable values and near-ties"""
+    bt, b = rng.choice([("a", 10), ("a", 10), ("2", 2), ("10", 16), ("3", 3), ("8", 8), ("5", 5)])
+    k = rng.below(4)
+    if k == 0:
+        s = rng.choice([1, 3, 5, 7, 4899, 12, 123456789, 10 ** 17 - 1, (1 << 53) + 1, (1 << 24) + 1, (1 << 54) - 1])
+    elif k == 1:
+        s = rng.bits(rng.choice([10, 24, 25, 53, 54, 60, 100, 200])) | 1
+    elif k == 2:
+        s = b ** rng.range(1, 30) + rng.choice([1, -1])
+    else:
+        s = ((rng.bits(52) | (1 << 52)) << 1 | 1) << rng.choice([0, 1, 7])     # a tie of f64 when the exponent is 0 in base 2
+    s *= rng.choice([1, -1])
+    e = rng.choice([0, 1, -1, 2, -2, 5, -5, 10, -10, 20, -20, 37, 38, -37, -38, rng.range(-38, 38)])
+    if b == 2:
+        e = rng.choice([e, -1074, -1075, -1080, -149, -150, -160, 960, 1023, 100, -100])
+    return "ftof64 %s %s %x %s %s" % (bt, rng.choice(MODES), ndigits(s, b) + rng.choice([0, 1, 5]), hx(s), hx(e))
+
+
 JSON_INT = ['"0"', '"12"', '"-12"', '"+7"', '"0x1f"', '"-0x1F"', '"0b101"', '"0o17"', '"1_000"', '"_"', '""', '"-"', '"12a"', '"0x"',
             '" 12"', '"12 "', '12', '-3', '1.5', 'null', 'true', '[]', '{}', '["1"]', '"\\u0031\\u0032"', '"1\\n"', ' "34" ', '"99', '99"',
             '"-0"', '"--1"', '"+-1"', '"0x-1"', '"340282366920938463463374607431768211456"', '"-18446744073709551616"']
@@ -379,8 +414,12 @@ JSON_FLT = ['"0"', '"1.5"', '"-1.5"', '"1e3"', '"1.5e-3"', '"inf"', '"-inf"', '"
 def gen_cases(rng, tier, n):
     out = ["config", "mulparams"]
     while len(out) < n:
-        k = rng.below(104)
-        if k >= 100:
+        k = rng.below(108)
+        if k >= 106:
+            out.append(gen_ftof(rng))
+        elif k >= 104:
+            out.append(gen_qtof_tie(rng))
+        elif k >= 100:
             out.append(gen_kmul(rng, tier))
         elif k < 8:
             a = gint(rng, tier, big=rng.chance(1, 8))
